@@ -1,5 +1,6 @@
 import Cinco.Props.C12
 import Cinco.Proofs.Defined
+import Cinco.Generated.SupportShape
 /-
   C12b — the two statements of C12 that are not per-step:
   (1) a freshly built configuration *as a whole*: every declared storing field is present, holds what its own
@@ -803,5 +804,18 @@ theorem dup_value_differs (W : World) :
   rw [Cfg.get_setDefault_same]
 
 end Demo
+
+/-- **/repo's `reset_value` and `is_value_defined` are what `resetValue` / `isDefined` of Config/Ops.lean follow** (generated reading of
+    cincoconfig/support.py, regenerated on every run): walk the dotted path to the owning configuration, find the field, refuse a
+    name that is no field with `AttributeError`, and hand the reset to the field's own `__setdefault__` — the one place that knows
+    the environment, the declared default, a callable default, a copy of a mutable one and the default-status bookkeeping; the
+    status is membership of the owner's default-key set and nothing else -/
+theorem reset_code_order :
+    Generated.supportShape.lookup "reset_value" =
+      some ["path, _, key = key.rpartition('.')", "if[path]", "config = config[path]", "end", "field = config._get_field(key)",
+            "if[not field]", "raise:AttributeError", "end", "field.__setdefault__(config)"] ∧
+    Generated.supportShape.lookup "is_value_defined" =
+      some ["path, _, key = key.rpartition('.')", "if[path]", "config = config[path]", "end",
+            "return key not in config._default_value_keys"] := by decide
 
 end Cinco.C12b
